@@ -61,6 +61,10 @@ var regModel = porcupine.Model{
 		case opRemove:
 			return true, 0
 		}
+		if output.(int) == presentSomeGen {
+			// a read that only tells "registered" (the OPTIONS filter listing GET for the URL), not which generation
+			return state.(int) != 0, state
+		}
 		return output.(int) == state.(int), state
 	},
 	Equal: func(a, b interface{}) bool { return a.(int) == b.(int) },
@@ -75,6 +79,8 @@ var regModel = porcupine.Model{
 		return fmt.Sprintf("read(%s)->%d", in.Key, output.(int))
 	},
 }
+
+const presentSomeGen = -7
 
 type histRec struct {
 	mu  sync.Mutex
@@ -111,7 +117,7 @@ type c12Round struct {
 func c12(ctx *core.Ctx) {
 	quietLogs()
 	defer restful.EnableTracing(false)
-	ctx.Rule("rounds of W mutator goroutines (each owns one WebService key /k<i>: Add/Remove of a fresh WebService, and one route key /d<i>/r/{id:regex}: Route/RemoveRoute on its own dynamic-routes service (empty whenever the route is withdrawn) and a third key /dyn/s<i>/{id:regex} on the dynamic-routes service all mutators share, and a fourth key /mk<i>/r whose single route changes its method M<gen> with every generation (read off the Allow header of a 405), each generation with another regular expression; an OPTIONS filter and 0-5 further container filters are installed, every service has a filter of its own (each 200 answer must carry exactly its own chain) and readers also send OPTIONS; Remove and RemoveRoute are now and then repeated for something no longer registered; handlers return a unique generation) and R reader goroutines probing dynamic and stable URLs; both routers x {ServeHTTP, Dispatch}; every fourth round with trace logging on; in half of the rounds panic recovery is on and a stable route has an If-condition that panics for marked requests (readers send some); yields injected through If-conditions (inside the read-locked selection) and a container filter. Monitors: Go race detector; client-boundary history {op, key, gen, call, return} checked by porcupine per key against a register over {absent, gen}; stable URLs must always get their fixed answer; panics; blocked-goroutine state detector. Non-trivial = a read that overlapped a write of its own key; distinct by (round configuration, key, observed value class).")
+	ctx.Rule("rounds of W mutator goroutines (each owns one WebService key /k<i>: Add/Remove of a fresh WebService, and one route key /d<i>/r/{id:regex}: Route/RemoveRoute on its own dynamic-routes service (empty whenever the route is withdrawn) and a third key /dyn/s<i>/{id:regex} on the dynamic-routes service all mutators share, and a fourth key /mk<i>/r whose single route changes its method M<gen> with every generation (read off the Allow header of a 405), each generation with another regular expression; an OPTIONS filter and 0-5 further container filters are installed, every service has a filter of its own (each 200 answer must carry exactly its own chain) and readers also send OPTIONS (whether the filter lists GET for the URL is a read of the key, too); Remove and RemoveRoute are now and then repeated for something no longer registered; handlers return a unique generation) and R reader goroutines probing dynamic and stable URLs; both routers x {ServeHTTP, Dispatch}; every fourth round with trace logging on; in half of the rounds panic recovery is on and a stable route has an If-condition that panics for marked requests (readers send some); yields injected through If-conditions (inside the read-locked selection) and a container filter. Monitors: Go race detector; client-boundary history {op, key, gen, call, return} checked by porcupine per key against a register over {absent, gen}; stable URLs must always get their fixed answer; panics; blocked-goroutine state detector. Non-trivial = a read that overlapped a write of its own key; distinct by (round configuration, key, observed value class).")
 	ctx.Assume("schedules are not reproducible: evidence reports the overlap actually observed", "a porcupine timeout is inconclusive, never a violation")
 	rounds := ctx.N(64, 6000)
 	var totalOps, totalOverlap, partitions int
@@ -406,9 +412,23 @@ func c12(ctx *core.Ctx) {
 						if n%11 == 10 {
 							// an OPTIONS request for the same URL (answered by the OPTIONS filter from the current routes)
 							oreq := rt.Req{Method: "OPTIONS", Path: path}
-							if o := rt.Run(c, rd.Entry, &oreq); o.Panicked {
+							ocall := now()
+							o := rt.Run(c, rd.Entry, &oreq)
+							oret := now()
+							if o.Panicked {
 								atomic.AddInt32(&panics, 1)
 								firstPanic.Store("OPTIONS " + path + ": " + o.Panic)
+							} else {
+								// the filter's list is a read of the key as well: GET listed = registered (some generation), not
+								// listed = absent - each must have been true at some moment of the request
+								val := 0
+								for _, m := range rt.ParseAllow(o.Rec.Hdr().Get("Allow")) {
+									if m == "GET" {
+										val = presentSomeGen
+									}
+								}
+								hist.add(porcupine.Operation{ClientId: client, Input: regIn{key, opRead, 0}, Call: ocall, Output: val, Return: oret})
+								ctx.Count("options_list_reads", 1)
 							}
 							ctx.Count("options_probes", 1)
 						}
